@@ -348,7 +348,73 @@ impl Walker {
     }
 }
 
+fn parse_vehicle(s: &str) -> VehicleIdx {
+    if let Some(n) = s.strip_prefix("veh_") {
+        VehicleIdx::vehicle_from(n.parse().unwrap())
+    } else {
+        VehicleIdx::dummy_from(s.strip_prefix("dummy_").unwrap().parse().unwrap())
+    }
+}
+
+/// apply one call given by name and arguments (replay of specification histories)
+fn apply_named(nw: &Arc<Network>, s: &Schedule, op: &Value) -> Result<Schedule, String> {
+    let map: std::collections::HashMap<String, NodeIdx> = nw.all_nodes().map(|n| (nid(nw, n), n)).collect();
+    let a = &op["args"];
+    let node = |v: &Value| -> NodeIdx { map[v.as_str().unwrap()] };
+    let nodes = |v: &Value| -> Vec<NodeIdx> { v.as_array().unwrap().iter().map(|x| map[x.as_str().unwrap()]).collect() };
+    let vt = |v: &Value| -> VehicleTypeIdx {
+        nw.vehicle_types().iter().find(|&t| type_id(nw, t) == v.as_str().unwrap()).unwrap()
+    };
+    match op["op"].as_str().unwrap() {
+        "spawn_vehicle_for_path" => s.spawn_vehicle_for_path(vt(&a["ty"]), nodes(&a["path"])).map(|x| x.0),
+        "replace_vehicle_by_dummy" => s.replace_vehicle_by_dummy(parse_vehicle(a["v"].as_str().unwrap())),
+        "add_path_to_vehicle_tour" => {
+            let path = Path::new(nodes(&a["path"]), nw.clone())?.ok_or_else(|| String::from("no activity"))?;
+            s.add_path_to_vehicle_tour(parse_vehicle(a["v"].as_str().unwrap()), path).map(|x| x.0)
+        }
+        "remove_segment" => s.remove_segment(Segment::new(node(&a["s"]), node(&a["e"])), parse_vehicle(a["v"].as_str().unwrap())),
+        "override_reassign" => s
+            .override_reassign(
+                Segment::new(node(&a["s"]), node(&a["e"])),
+                parse_vehicle(a["p"].as_str().unwrap()),
+                parse_vehicle(a["r"].as_str().unwrap()),
+            )
+            .map(|x| x.0),
+        "reassign_end_depots_consistent_with_transitions" => Ok(s.reassign_end_depots_consistent_with_transitions()),
+        other => Err(format!("unknown op {}", other)),
+    }
+}
+
+fn run_replay(opts: &Opts) -> i32 {
+    let inputs = read_lines(opts.req("in"));
+    let mut out = Out::create(opts.req("out"));
+    let nw = load_rolling_stock_problem_instance_from_json(inputs[0]["input"].clone());
+    for case in inputs.iter().skip(1) {
+        let k = case["case"].as_u64().unwrap();
+        let res = guarded(|| {
+            let mut s = Schedule::empty(nw.clone());
+            for (i, op) in case["hist"].as_array().unwrap().iter().enumerate() {
+                match apply_named(&nw, &s, op) {
+                    Ok(n) => s = n,
+                    Err(e) => return Err((i, e)),
+                }
+            }
+            Ok(solution::verif::project(&s))
+        });
+        match res {
+            Ok(Ok(p)) => out.emit(&json!({"ev": "replayed", "case": k, "ok": true, "panic": false, "S": p})),
+            Ok(Err((i, e))) => out.emit(&json!({"ev": "replayed", "case": k, "ok": false, "panic": false, "at": i, "msg": e})),
+            Err(m) => out.emit(&json!({"ev": "replayed", "case": k, "ok": false, "panic": true, "at": -1, "msg": m})),
+        }
+    }
+    out.flush();
+    0
+}
+
 pub fn run(opts: &Opts) -> i32 {
+    if opts.get("mode") == Some("replay") {
+        return run_replay(opts);
+    }
     let inputs = read_lines(opts.req("in"));
     let mut out = Out::create(opts.req("out"));
     for item in inputs {
